@@ -153,12 +153,44 @@ class BuildError(Exception):
 
 # ------------------------------------------------------------------- running
 
+SHARD_TIMEOUT = 1800
+CASE_TIMEOUT = 20
+
+
+def _run_one(binary, line, idx):
+    """a single case in its own process: used to isolate a case that hangs or kills the runner"""
+    path = os.path.join(BUILD, "cases", "one.%d.%d.txt" % (os.getpid(), idx))
+    with open(path, "w") as f:
+        f.write(line + "\n")
+    try:
+        p = subprocess.run([binary, path], stdout=subprocess.PIPE, stderr=subprocess.PIPE, timeout=CASE_TIMEOUT)
+        out = p.stdout.decode("utf-8", "replace").splitlines()
+        if p.returncode != 0 or len(out) != 1:
+            return "CRASH the runner died on this case (exit status %s)" % p.returncode
+        return out[0]
+    except subprocess.TimeoutExpired:
+        return "HANG no answer within %d s" % CASE_TIMEOUT
+    finally:
+        os.unlink(path)
+
+
 def _run_shard(args):
     binary, path = args
-    p = subprocess.run([binary, path], stdout=subprocess.PIPE, stderr=subprocess.PIPE, timeout=7200)
-    if p.returncode != 0:
-        raise RuntimeError("%s failed on %s: %s" % (binary, path, p.stderr.decode()[-2000:]))
-    return p.stdout.decode("utf-8", "replace").splitlines()
+    lines = open(path).read().splitlines()
+    try:
+        p = subprocess.run([binary, path], stdout=subprocess.PIPE, stderr=subprocess.PIPE,
+                           timeout=SHARD_TIMEOUT if binary != HARNESS_BIN else min(SHARD_TIMEOUT, 120 + len(lines) // 20))
+        out = p.stdout.decode("utf-8", "replace").splitlines()
+        if p.returncode == 0 and len(out) == len(lines):
+            return out
+        if binary != HARNESS_BIN:
+            raise RuntimeError("%s failed on %s: %s" % (binary, path, p.stderr.decode()[-2000:]))
+    except subprocess.TimeoutExpired:
+        if binary != HARNESS_BIN:
+            raise
+    # the implementation side hung or died: find the culprit(s), case by case
+    with ThreadPoolExecutor(max_workers=NPROC) as ex:
+        return list(ex.map(lambda t: _run_one(binary, t[1], t[0]), enumerate(lines)))
 
 
 def _run_lines(binary, lines, tag):
@@ -202,6 +234,8 @@ def parse_impl(ty, line):
         return ("OK", [num.from_bits(ty, int(t, 16)) for t in parts[1:] if t])
     if kind == "NONE":
         return ("NONE",)
+    if kind in ("HANG", "CRASH"):
+        return (kind, line[len(kind) + 1:], None)
     if kind in ("ERR", "PANIC"):
         rest = line[len(kind) + 1:]
         rej = None
